@@ -133,6 +133,8 @@ type streamHist struct {
 	lastPartTarget  int64
 	lastHadNonFinal bool
 	nonFinalD       int64
+	haveFragSeq     bool
+	lastFragSeq     uint32
 }
 
 var segRe = regexp.MustCompile(`^([0-9a-f]{12})_([a-z]+[0-9]*)_seg([0-9]+)\.(mp4|ts)$`)
@@ -1017,6 +1019,7 @@ func (e *e1) skipSegment(h *streamHist, id uint64) {
 	for tid := range h.nextBase {
 		delete(h.nextBase, tid)
 	}
+	h.haveFragSeq = false
 }
 
 // tracksOfStream lists the track indexes carried by stream s, in order.
@@ -1146,6 +1149,15 @@ func (e *e1) checkSegmentMedia(s string, id uint64, ms *MSeg, body []byte, bad f
 	per := map[int][]DUnit{}
 	for _, u := range units {
 		per[u.TrackID] = append(per[u.TrackID], u)
+	}
+	// fragment sequence numbers run through the whole stream (C05: equal to the part numbers)
+	for _, f := range frags {
+		if h.haveFragSeq && f.Seq != h.lastFragSeq+1 {
+			if bad("C05", "segment %d: fragment sequence number %d follows %d", id, f.Seq, h.lastFragSeq) {
+				return false
+			}
+		}
+		h.haveFragSeq, h.lastFragSeq = true, f.Seq
 	}
 	// contiguous base times across fragments (and across segments, tracked per stream)
 	for _, f := range frags {
